@@ -91,8 +91,17 @@ class MD3(DriftDetector):
                 be collected by the oracle when drift is suspected, for the purpose of
                 either confirming or ruling out drift, and then retraining the classifier
                 if drift is confirmed. Defaults to the length of the reference distribution
-                (this is set in the set_reference method).
+                (this is set in the set_reference method). Must be at least ``k``,
+                because the collected samples become the new reference batch, whose
+                distribution statistics are calculated with k-fold cross validation.
         """
+
+        if oracle_data_length_required is not None and oracle_data_length_required < k:
+            raise ValueError(
+                """oracle_data_length_required must be at least k: the labeled samples
+                collected from the oracle become the new reference batch, whose
+                distribution statistics are calculated with k-fold cross validation."""
+            )
 
         super().__init__()
         self.classifier = clf
